@@ -225,7 +225,10 @@ def _gen_stop(rnd, depth=2):
         if k == "attempt":
             return {"k": k, "n": rnd.choice([0, 1, 1, 2, 3, 4, 6])}
         if k == "delay":
-            return {"k": k, "d": rnd.choice([0.37, 1.37, 2.63, 4.41, 7.77])}
+            if rnd.random() < 0.15:
+                # a limit of a day or more, spelled as a timedelta: never reached by these runs
+                return {"k": k, "d": rnd.choice([86400, 172800, 90000.5]), "td": True}
+            return {"k": k, "d": rnd.choice([0.37, 1.37, 2.63, 4.41, 7.77]), "td": rnd.random() < 0.2}
         return {"k": k}
     k = rnd.choice(["any", "all", "or", "and"])
     return {"k": k, "parts": [_gen_stop(rnd, depth - 1) for _ in range(2)]}
@@ -237,7 +240,7 @@ def _stop_bounded(ast):
     if k == "attempt":
         return True
     if k == "delay":
-        return True
+        return ast["d"] < 1000
     if k == "never":
         return False
     vals = [_stop_bounded(p) for p in ast["parts"]]
@@ -349,7 +352,7 @@ def gen_catch(rnd):
     items = []
     for _ in range(n):
         items.append({"lat": [rnd.choice([0, 0.5, 1])], "fails": rnd.choice([0, 0, att1, att1, 1 if att1 > 1 else att1]), "fails2": rnd.choice([0, 0, att2])})
-    layout = rnd.choice(["scoped", "scoped_both", "wildcard", "scoped+wildcard", "none", "none"])
+    layout = rnd.choice(["scoped", "scoped_both", "wildcard", "scoped+wildcard", "none", "none", "scoped+empty", "empty"])
     steps = [
         {"name": "start", "in": ["Go"], "nw": 1, "acts": [{"k": "send", "type": "EvA", "items": items}, {"k": "ret", "type": None}], "declare": ["EvA"]},
         {"name": "w1", "in": ["EvA"], "nw": rnd.randint(1, 3), "retry": {"wait": {"k": "fixed", "w": rnd.choice([0, 0.5])}, "stop": {"k": "attempt", "n": att1}},
@@ -387,6 +390,12 @@ def gen_catch(rnd):
     elif layout == "scoped+wildcard":
         steps.append(handler("h1", [rnd.choice(["w1", "w2"])], rnd.randint(1, 2)))
         steps.append(handler("hw", None, rnd.randint(1, 2)))
+    elif layout == "scoped+empty":
+        # a handler whose scope list is legal but EMPTY (e.g. computed from configuration): it lists no step and is no wildcard
+        steps.append(handler("h1", [rnd.choice(["w1", "w2"])], rnd.randint(1, 2)))
+        steps.append(handler("he", [], rnd.randint(1, 2)))
+    elif layout == "empty":
+        steps.append(handler("he", [], rnd.randint(1, 2)))
     if rnd.random() < 0.25:
         # assemble part of the workflow after the instance exists (Workflow.add_step): a handler, or the step a wildcard handler owns
         cands = [s_ for s_ in steps if s_.get("handler") is not None] + [s_ for s_ in steps if s_["name"] == "w2"]
